@@ -140,18 +140,26 @@ IsTotalAll(M, dY) ==
 AllInputs(M, Y) == [i \in 1..Len(M.ins) |-> InVal(M, Y, i)]
 
 \* --- relevance (C24) -------------------------------------------------------------------------------
-\* component (position in M.comps) that owns input i
-InComp(M, i) == CHOOSE k \in 1..Len(M.comps) : \E j \in 1..Len(M.comps[k].ins) : M.comps[k].ins[j] = i
-CompEdges(M) == {<<M.outs[M.ins[i].src].comp, InComp(M, i)>> : i \in 1..Len(M.ins)}
+\* Variable-level dependency graph on outputs: o -> o2 when some input fed by o enters a component whose block
+\* d(o2)/d(input) is not identically zero.  Only true dependencies count: the set derived from it is what a
+\* derivative computation NEEDS (a lower bound on what may be skipped), so over-execution is never flagged.
+NonZeroBlock(blk) == \E r \in 1..Len(blk) : \E k \in 1..Len(blk[r]) : blk[r][k] # Zero
+OutEdges(M) ==
+    UNION {UNION {{<<M.ins[M.comps[c].ins[ki]].src, M.comps[c].outs[ko]>> :
+                        ko \in {q \in 1..Len(M.comps[c].outs) : NonZeroBlock(M.comps[c].A[q][ki])}}
+                  : ki \in 1..Len(M.comps[c].ins)}
+           : c \in {k \in 1..Len(M.comps) : M.comps[k].kind # "ivc"}}
 RECURSIVE ReachFrom(_, _)
 ReachFrom(E, S) == LET N == S \cup {e[2] : e \in {x \in E : x[1] \in S}} IN IF N = S THEN S ELSE ReachFrom(E, N)
-Reach(M, S) == ReachFrom(CompEdges(M), S)
-CoReach(M, S) == ReachFrom({<<e[2], e[1]>> : e \in CompEdges(M)}, S)
-\* components on a data path from one of the seed outputs to one of the target outputs
-OnPath(M, seeds, targets) == Reach(M, {M.outs[o].comp : o \in seeds}) \cap CoReach(M, {M.outs[o].comp : o \in targets})
-\* fwd: a design variable's derivatives need every component between it and any response; rev: the mirror image
+Reach(M, S) == ReachFrom(OutEdges(M), S)
+CoReach(M, S) == ReachFrom({<<e[2], e[1]>> : e \in OutEdges(M)}, S)
+\* outputs on a dependency path from one of the seed outputs to one of the target outputs
+OnPath(M, seeds, targets) == Reach(M, seeds) \cap CoReach(M, targets)
+\* fwd: a design variable's derivatives need every component that owns an output between it and any response;
+\* rev: the mirror image
 RelevantComps(M, mode, seed, others) ==
-    IF mode = "fwd" THEN OnPath(M, {seed}, others) ELSE OnPath(M, others, {seed})
+    LET outs == IF mode = "fwd" THEN OnPath(M, {seed}, others) ELSE OnPath(M, others, {seed})
+    IN {M.outs[o].comp : o \in outs}
 
 \* --- variables of interest ----------------------------------------------------------------------
 \* voi: [out (output id), idx (NdIndex term or the record [k |-> "none"]), flat, scaler, adder]  (exact rationals)
